@@ -295,6 +295,18 @@ def setUpSubstitutionsOld (name : PStr) (attrs : List (PStr × AttrVal)) : List 
     | some _ => subCharsetStep attrs
     | none => subContentStep attrs
 
+/-- `attr_container = attribute_dict_class(**kwattrs); attr_container.update(attrs)` (bs4/__init__.py, `new_tag`): the
+    `attrs` dictionary is laid over the keyword attributes, later entries and `attrs` winning; `dict.update` bypasses
+    `__setitem__`, so values (a `None` included) go in as they are -/
+def mergeAttrs (kw attrs : List (PStr × AttrVal)) : List (PStr × AttrVal) :=
+  attrs.foldl (fun acc a => setAttr a.1 a.2 acc) kw
+
+/-- the attributes of `soup.new_tag(name, attrs=attrs, **kw)`: `Tag.__init__` runs `builder.set_up_substitutions` on the
+    merged attributes — for every builder configuration (the call sits in the `builder is not None` block, outside the
+    branch on `cdata_list_attributes`), so a `<meta>` made through the API declares rewritably exactly like a parsed one -/
+def newTagAttrs (name : PStr) (kw attrs : List (PStr × AttrVal)) : List (PStr × AttrVal) :=
+  setUpSubstitutions name (mergeAttrs kw attrs)
+
 /-! ## 3. rendering (minimal formatter) -/
 
 def escXml (c : Nat) : PStr :=
